@@ -137,7 +137,7 @@ func (e *ExecutorEngine) startSubscription(ctx context.Context, id string, execu
 
 	defer e.bufferPool.Put(buf)
 
-	e.executeSubscription(buf, id, executor, eventHandler)
+	e.executeSubscription(ctx, buf, id, executor, eventHandler)
 
 	for {
 		buf.Reset()
@@ -145,13 +145,13 @@ func (e *ExecutorEngine) startSubscription(ctx context.Context, id string, execu
 		case <-ctx.Done():
 			return
 		case <-time.After(e.subscriptionUpdateInterval):
-			e.executeSubscription(buf, id, executor, eventHandler)
+			e.executeSubscription(ctx, buf, id, executor, eventHandler)
 		}
 	}
 
 }
 
-func (e *ExecutorEngine) executeSubscription(buf *graphql.EngineResultWriter, id string, executor Executor, eventHandler EventHandler) {
+func (e *ExecutorEngine) executeSubscription(ctx context.Context, buf *graphql.EngineResultWriter, id string, executor Executor, eventHandler EventHandler) {
 	buf.SetFlushCallback(func(data []byte) {
 		e.logger.Debug("subscription.Handle.executeSubscription()",
 			abstractlogger.ByteString("execution_result", data),
@@ -166,6 +166,10 @@ func (e *ExecutorEngine) executeSubscription(buf *graphql.EngineResultWriter, id
 			abstractlogger.Error(err),
 		)
 
+		if ctx.Err() != nil {
+			// the id was stopped while executing and is completed already: nothing more is sent for it
+			return
+		}
 		eventHandler.Emit(EventTypeOnError, id, nil, err)
 		return
 	}
@@ -202,6 +206,10 @@ func (e *ExecutorEngine) handleNonSubscriptionOperation(ctx context.Context, id 
 			abstractlogger.Error(err),
 		)
 
+		if ctx.Err() != nil {
+			// the id was stopped while executing and is completed already: nothing more is sent for it
+			return
+		}
 		eventHandler.Emit(EventTypeOnError, id, nil, err)
 		return
 	}
